@@ -59,9 +59,13 @@ func ErrReceivedMessageFromUnexpectedPeer(peerId string, swapId *SwapId) error {
 type SwapService struct {
 	swapServices *SwapServices
 
-	activeSwaps    map[string]*SwapStateMachine
-	BitcoinEnabled bool
-	LiquidEnabled  bool
+	activeSwaps map[string]*SwapStateMachine
+	// activeSwapScids holds the channel id each active swap was locked with,
+	// so that lockSwap does not have to read the swap data of other swaps
+	// (which is guarded by their own mutexes).
+	activeSwapScids map[string]string
+	BitcoinEnabled  bool
+	LiquidEnabled   bool
 	sync.RWMutex
 
 	lastMsgLog map[string]string
@@ -69,11 +73,12 @@ type SwapService struct {
 
 func NewSwapService(services *SwapServices) *SwapService {
 	return &SwapService{
-		swapServices:   services,
-		activeSwaps:    map[string]*SwapStateMachine{},
-		LiquidEnabled:  services.liquidEnabled,
-		BitcoinEnabled: services.bitcoinEnabled,
-		lastMsgLog:     map[string]string{},
+		swapServices:    services,
+		activeSwaps:     map[string]*SwapStateMachine{},
+		activeSwapScids: map[string]string{},
+		LiquidEnabled:   services.liquidEnabled,
+		BitcoinEnabled:  services.bitcoinEnabled,
+		lastMsgLog:      map[string]string{},
 	}
 }
 
@@ -1036,6 +1041,7 @@ func (s *SwapService) RemoveActiveSwap(swapId string) {
 	defer s.Unlock()
 	delete(s.lastMsgLog, swapId)
 	delete(s.activeSwaps, swapId)
+	delete(s.activeSwapScids, swapId)
 }
 
 // lockSwap locks in a swap. This function ensures that we only have one active
@@ -1046,15 +1052,16 @@ func (s *SwapService) lockSwap(swapId, channelId string, fsm *SwapStateMachine) 
 	defer s.Unlock()
 
 	// Check if we already have an active swap on the same channel
-	for id, swap := range s.activeSwaps {
+	for id := range s.activeSwaps {
 		// Channel ids may be written with 'x' (CLN) or ':' (LND) separators.
-		if lightning.Scid(swap.Data.GetScid()).ClnStyle() == lightning.Scid(channelId).ClnStyle() {
+		if lightning.Scid(s.activeSwapScids[id]).ClnStyle() == lightning.Scid(channelId).ClnStyle() {
 			return ActiveSwapError{channelId: channelId, swapId: id}
 		}
 	}
 
 	// Add active swap
 	s.activeSwaps[swapId] = fsm
+	s.activeSwapScids[swapId] = channelId
 	return nil
 }
 
